@@ -867,3 +867,21 @@ def gen(ctx):
     ctx.extra_obligations.append({"name": "tr_init.db_hypotheses(pgns.py): decode_pgn_N builds PGN N; id isoAddressClaim "
                                           "<-> 60928; 60928 single-frame", "ok": rep["ok"], "detail": rep["detail"]})
     ctx.notes.append(f"db hypotheses checked on {rep['n']} decode functions")
+    obl_c10(ctx)
+
+
+def obl_c10(ctx):
+    """C10 / C11 for the code of this run: the database hypotheses of the generic theorems decided by the kernel on
+    the regenerated tables, theorems instantiated with the composed decode function of those tables (OblC10.v)"""
+    import gen as G
+    g = G.ensure_gen()
+    if not g["ok"]:
+        ctx.extra_obligations.append({"name": "translation of nmea2000/pgns.py + canboat.json", "ok": False,
+                                      "detail": g.get("refused") or g.get("error")})
+        ctx.hints.append({"kind": "translator", "detail": g.get("refused") or g.get("error")})
+        return
+    ok, out = G.compile_template("OblC10")
+    for nm in G.theorem_names("OblC10"):
+        ctx.extra_obligations.append({"name": f"OblC10.v:{nm}", "ok": ok, "detail": out[-800:] if not ok else ""})
+    if not ok:
+        ctx.hints.append({"kind": "tables", "diag": "OblC10.v: " + " ".join(out.split())[-800:]})
